@@ -44,6 +44,11 @@ def serde(filters, features=("half",), **kw):
 # decode::Error, which makes the error paths of the full C04/C05 sets 50x more expensive: c05_datatype_* > 25 min)
 C20_SMALL = ["c05::c05_u8", "c05::c05_u64", "c05::c05_i8", "c05::c05_i64", "c05::c05_int", "c05::c05_char", "c04::c04_datatype", "c03::c03_u64", "c03::c03_i64", "c03::c03_simple", "c06::c06_lm"]
 
+# every C17 harness except c17_any_38 / c17_any_39 / c17_de_tuple_len, whose error paths build their message with format! in alloc
+# builds (core::fmt: > 15 min each, see C19); they are checked under {} and {half}
+C17_NO_FMT = ["c17::c17_ser_", "c17::c17_de_u", "c17::c17_de_i", "c17::c17_de_seq", "c17::c17_de_map", "c17::c17_de_enum", "c17::c17_de_bool", "c17::c17_de_str", "c17::c17_human",
+              "c17::c17_any_0", "c17::c17_any_1", "c17::c17_any_2", "c17::c17_any_4", "c17::c17_any_6", "c17::c17_any_c", "c17::c17_any_e", "c17::c17_any_f"]
+
 PROPS = {
     "C01": {
         "title": "value round-trip of the built-in codecs",
@@ -191,7 +196,7 @@ PROPS = {
         "bounds": "no cross-build query exists: agreement is shown by TRANSITIVITY through a complete oracle. The identical harness sources of C05 (all integer heads x all accessors), C04 (accessors vs R1/R8), "
                   "C03 (every Encoder method), C06 (skip vs R3; the documented no-alloc difference is cfg-ed into the oracle) and, with half, C11 steps / C12 are verified against minicbor built with "
                   "{} and {alloc} (quick: the u8/u64/i8/i64/Int/char accessors, datatype, the u64/i64/simple encoder methods, skip models, skip on N=3/4 and on maps with ANY 8-byte length); thorough adds {std}, {half,std}, {half,alloc} with the same small set (+ C12 with half) and the full C03/C04/C05/C06/C01/C07 sets under {} (the full sets under the alloc builds are not claimed: decode::Error carries a String there and c05_datatype_* alone ran > 25 min each); each harness fixes, for every input in its bound, the Ok/Err outcome, the value and the position, "
-                  "so builds that all satisfy it agree with each other. minicbor-derive under {alloc} (wrong-tag error class AND position, a round trip, an encoding); minicbor-serde: C17 Serializer/Deserializer harnesses under {} (quick) and {alloc,half}, {std,half} (thorough); {half} is what C17 itself checks",
+                  "so builds that all satisfy it agree with each other. minicbor-derive under {alloc} (wrong-tag error class AND position, a round trip, an encoding); minicbor-serde: C17 Serializer/Deserializer harnesses under {} (quick) and {alloc,half}, {std,half} (thorough; without the three harnesses whose error message is built by format! there); {half} is what C17 itself checks",
         "outside": "error MESSAGES (static vs formatted) and error classes beyond Ok/Err where the single-build oracle only requires 'an error'; 32-bit targets and atomic32; the alloc-build skip beyond N=3 (all-strings) / the 8-byte-length family with 0 items",
         "assumptions": ["agreement is derived by transitivity (argument), each build is decided by its own queries"],
         "groups": [
@@ -204,8 +209,8 @@ PROPS = {
             core(C20_SMALL + ["c12::c12_"], features=("half", "alloc"), tiers=["thorough"]),
             derive({"quick": ["::q::c09_wrong_tag", "gen::s_tags::q::c09_l0", "gen::s_eplain::q::c08"], "thorough": ["::q::c09_wrong_tag", "gen::s_tags::q::c09_l0", "::q::c08"]}, features=("alloc",), timeout={"quick": 400, "thorough": 3600}),
             serde({"quick": ["c17::c17_ser_u8", "c17::c17_ser_u64", "c17::c17_de_u8", "c17::c17_de_u64", "c17::c17_de_seq_def2", "c17::c17_de_seq_indef2", "c17::c17_de_tuple_len"], "thorough": ["c17::c17_"]}, features=(), timeout={"quick": 400, "thorough": 3600}),
-            serde(["c17::c17_"], features=("half", "alloc"), tiers=["thorough"]),
-            serde(["c17::c17_"], features=("half", "std"), tiers=["thorough"]),
+            serde(C17_NO_FMT, features=("half", "alloc"), tiers=["thorough"]),
+            serde(C17_NO_FMT, features=("half", "std"), tiers=["thorough"]),
         ],
     },
     "C11": {
